@@ -253,7 +253,10 @@ def build_property(ctx, regenerate=None):
     vo = os.path.join(COQ, vfile + "o")
     if os.path.exists(vo):
         os.remove(vo)
-    ok, out = coq_make([vfile + "o"])
+    targets = [vfile + "o"]
+    if os.path.exists(os.path.join(COQ, f"Check/{prop}.v")):
+        targets.append(f"Check/{prop}.vo")
+    ok, out = coq_make(targets)
     ctx.checker_cmd = f"make -C coq -j{NCPU} {vfile}o   (coq_makefile -f _CoqProject; coqc 8.16.1)"
     files = cone(vfile)
     ctx.cone = files
